@@ -19,6 +19,9 @@ PANIC_TAILS = {
     "<impl str>::split_at", "Iterator::step_by",
     "Duration::from_secs_f64", "Duration::from_secs_f32", "Duration::mul_f64", "Instant::duration_since",
     "slice::from_raw_parts",
+    # allocation sizes: `capacity overflow` panic (and, below that, an allocation the size of which a peer chose)
+    "Vec::with_capacity", "Vec::reserve", "Vec::reserve_exact", "VecDeque::with_capacity", "VecDeque::reserve", "String::with_capacity",
+    "BytesMut::with_capacity", "BytesMut::reserve", "Vec::resize", "vec::from_elem", "HashMap::with_capacity", "HashSet::with_capacity",
 }
 PANIC_GLOBS = [
     "core::panicking::*", "std::panicking::*", "core::option::unwrap_failed", "core::option::expect_failed", "core::result::unwrap_failed",
@@ -33,6 +36,58 @@ PANIC_GLOBS = [
 # arithmetic operator traits are only panic-capable for non-primitive operand types that
 # document a panic (Duration, Instant, Time, tendermint Height ...); primitives use Assert
 ARITH_TAILS = {"Add::add", "Sub::sub", "Mul::mul", "Div::div", "Rem::rem", "AddAssign::add_assign", "SubAssign::sub_assign", "Neg::neg"}
+
+
+# allocation kinds -> index of the size operand
+ALLOC_KINDS = {"Vec::with_capacity": 0, "VecDeque::with_capacity": 0, "String::with_capacity": 0, "BytesMut::with_capacity": 0, "HashMap::with_capacity": 0,
+               "HashSet::with_capacity": 0, "Vec::reserve": 1, "Vec::reserve_exact": 1, "VecDeque::reserve": 1, "BytesMut::reserve": 1, "Vec::resize": 1, "vec::from_elem": 1}
+
+
+def size_from_lengths(e, depth=0):
+    """True when e is built only from lengths of existing collections and constants by operations
+    that keep it within a constant factor of those lengths: /, -, min, casts, *const, and the
+    square of (const * sqrt(length)). Returns 'sqrt' for a square-root-sized value."""
+    from .mir import LEN_TAILS
+    if depth > 12:
+        return False
+    tag = e[0]
+    if tag == "const":
+        return isinstance(e[1], int) and e[1] <= 2 ** 20
+    if tag == "call":
+        tl = std_tail(e[2])
+        if tl in LEN_TAILS:
+            return True
+        if tl and (tl.endswith("::sqrt") or tl.endswith("::isqrt")):
+            return "sqrt" if e[3] and size_from_lengths(e[3][0], depth + 1) else False
+        if tl in ("Ord::min", "Into::into", "From::from", "TryInto::try_into", "<impl f64>::ceil", "<impl f64>::floor") or (tl and tl.endswith(("::ceil", "::floor", "::min"))):
+            rs = [size_from_lengths(a, depth + 1) for a in e[3]]
+            if tl in ("Ord::min",) or (tl and tl.endswith("::min")):
+                return any(rs) and (True if any(r is True for r in rs) else "sqrt")
+            return rs[0] if rs else False
+        return False
+    if tag == "cast":
+        return size_from_lengths(e[1], depth + 1)
+    if tag in ("proj", "part"):
+        return size_from_lengths(e[2], depth + 1)
+    if tag == "phi":
+        rs = [size_from_lengths(a, depth + 1) for a in e[1]]
+        return all(rs) and ("sqrt" if all(r == "sqrt" for r in rs) else True)
+    if tag == "bin":
+        op = e[1]
+        a, b = size_from_lengths(e[2], depth + 1), size_from_lengths(e[3], depth + 1)
+        if op.startswith(("Div", "Sub", "Rem", "Shr", "BitAnd")):
+            return a
+        if op.startswith("Mul"):
+            if not (a and b):
+                return False
+            ca, cb = e[2][0] == "const", e[3][0] == "const"
+            if ca or cb:
+                return b if ca else a
+            if a == "sqrt" and b == "sqrt":
+                return True
+            return False
+        return False
+    return False
 
 
 def site_kind(t):
@@ -220,6 +275,14 @@ def auto_discharge(site):
         return None
     # calls
     args = site.opnds
+    if k in ALLOC_KINDS and args:
+        size = args[ALLOC_KINDS[k]] if len(args) > ALLOC_KINDS[k] else None
+        if size is not None:
+            iv = interval(size)
+            if iv and iv[1] <= 2 ** 32:
+                return "D6: allocation size bounded by %d" % iv[1]
+            if size_from_lengths(size):
+                return "D6: allocation size is a length of data already in memory, scaled by constants (or (c*sqrt(len))^2)"
     if k in ("<impl [T]>::chunks", "<impl [T]>::chunks_mut", "<impl [T]>::chunks_exact", "<impl [T]>::windows", "Iterator::step_by") and len(args) == 2:
         if const_val(args[1]) not in (None, 0):
             return "D1: constant non-zero size %d" % const_val(args[1])
